@@ -5,6 +5,8 @@ from collections import Counter
 from vt import core, ref as R, build as B, sat
 
 REF_LIMIT = {'quick': 400, 'thorough': 4000}
+# designs per stratum in a quick run (stratified over shape classes, see gen.thin); thorough runs take whole strata
+QUICK_CAPS = {'S1': 240, 'S1x': 60, 'S2': 160, 'S3': 90, 'S4': 90, 'S5': 80, 'S6': 46, 'S9': 200}
 
 
 class Ctx:
